@@ -179,6 +179,8 @@ package eval
 
 //@ # ---- C01: method definitions cut off by the end of the file ----
 //@ func (*ti/eval.Def).getMethodNameAndSetIsStatic
+//@   # C16: `initialize` is never registered under its own name: it defines the class method `new`
+//@   ensures[C16] isnil(result1) ==> result0 != "initialize"
 //@   requires wfP(p) && p != nil && ctx != nil
 //@   safe nil,idx,slice
 //@   inline 8 2
@@ -241,3 +243,13 @@ package eval
 //@   callsite[C17] SetValueT a_frame == ctx.frame && a_class == ctx.class && a_method == ctx.method
 //@   callsite[C17] SetValueT len(blockParameters) <= idx ==> a_t.tType == base.NIL
 //@   callsite[C17] SetValueT len(blockParameters) > idx ==> a_t.tType == blockParameters[idx].tType
+
+//@ # ---- C16: visibility and `new` from `initialize` ----
+//@ # a method is registered in the table of the class being defined (ctx frame/class), as a class
+//@ # method exactly when the definition is static, and under the private key exactly when a private
+//@ # section is in effect
+//@ func (*ti/eval.Def).setDefineMethodT
+//@   sitesonly
+//@   inline 2 1
+//@   callsite[C16] SetClassMethodT ctx.IsDefineStatic && a_frame == ctx.frame && a_class == ctx.class && a_isPrivate == ctx.IsPrivate && a_methodT == methodT
+//@   callsite[C16] SetMethodT !ctx.IsDefineStatic && a_frame == ctx.frame && a_targetClass == ctx.class && a_isPrivate == ctx.IsPrivate && a_methodT == methodT
